@@ -20,7 +20,10 @@ class C07(common.Prop):
                    "io.BytesIO read/seek as in base/Prog.v"]
 
     def translate(self):
-        return translate_py.codec_gen()
+        g = dict(translate_py.codec_gen())
+        import translate_c08
+        g.update(dict(translate_c08.gen()[0]))         # unpack_torch / unpack_tensorflow (tied in props/C07.v)
+        return g
 
     def setup(self):
         self.c03 = C03()
